@@ -2,6 +2,8 @@
 //@ serves C10 C05 C02
 //@ include prelude/header.rs
 verus! {
+//@ include prelude/error.rs
+//@ include prelude/runtime.rs
 //@ include prelude/render.rs
 }
 //@ include prelude/render_macros.rs
